@@ -1,0 +1,104 @@
+//go:build verif
+// +build verif
+
+package rjson
+
+import "github.com/willabides/rjson/internal/fp"
+
+// Verification hooks: re-exports of unexported functions so that an external harness
+// can compare each layer with its formal model separately. Built only with -tags verif.
+
+func VerifSkipFloatDec(data []byte, p, pe int) (int, error) { return skipFloatDec(data, p, pe) }
+func VerifSkipFloatExp(data []byte, p, pe int) (int, error) { return skipFloatExp(data, p, pe) }
+func VerifGetu4(data []byte) rune                           { return getu4(data) }
+func VerifUnescapeUnicodeChar(s, data []byte) ([]byte, int, bool) {
+	return unescapeUnicodeChar(s, data)
+}
+func VerifGrowBytesSliceCapacity(slice []byte, size int) []byte {
+	return growBytesSliceCapacity(slice, size)
+}
+func VerifAppendRemainderOfString(data, dst []byte) ([]byte, int, error) {
+	return appendRemainderOfString(data, dst)
+}
+func VerifNullOrBust(data []byte, origErr error) (int, error) { return nullOrBust(data, origErr) }
+func VerifSkipValue(data []byte, stack []int) (int, []int, error) {
+	return skipValue(data, stack)
+}
+func VerifSkipValueFast(data []byte, stack []int) (int, []int, error) {
+	return skipValueFast(data, stack)
+}
+func VerifHandleArrayValues(data []byte, h ArrayValueHandler, stack []int) (int, []int, error) {
+	return handleArrayValues(data, h, stack)
+}
+func VerifHandleObjectValues(data []byte, h ObjectValueHandler, stack []int) (int, []int, error) {
+	return handleObjectValues(data, h, stack)
+}
+func VerifSkipStringFast(data []byte) (int, error) { return skipStringFast(data) }
+
+// VerifBufferStack exposes a Buffer's stack slice (read-only use).
+func VerifBufferStack(b *Buffer) []int { return b.stackBuf }
+
+// VerifSetBufferStack installs a stack slice into a Buffer.
+func VerifSetBufferStack(b *Buffer, s []int) { b.stackBuf = s }
+
+// VerifSentinel names the package's sentinel errors.
+func VerifSentinel(err error) string {
+	switch err {
+	case nil:
+		return "nil"
+	case errMaxDepth:
+		return "errMaxDepth"
+	case errUnexpectedEOF:
+		return "errUnexpectedEOF"
+	case errInvalidString:
+		return "errInvalidString"
+	case errInvalidArray:
+		return "errInvalidArray"
+	case errInvalidObject:
+		return "errInvalidObject"
+	case errInvalidUInt:
+		return "errInvalidUInt"
+	case errInvalidInt:
+		return "errInvalidInt"
+	case errInvalidNumber:
+		return "errInvalidNumber"
+	case errNoValidToken:
+		return "errNoValidToken"
+	case errNotNull:
+		return "errNotNull"
+	case errNotBool:
+		return "errNotBool"
+	case errPOutOfRange:
+		return "errPOutOfRange"
+	}
+	return "other"
+}
+
+// VerifReaderState is a read-only snapshot of a ValueReader's bookkeeping fields.
+type VerifReaderState struct {
+	Depth, NewMapSize, LastMapSize, MaxMapSize, NewSliceSize, LastSliceSize int
+	StackCap, FieldNameCap, StringCap                                       int
+}
+
+// VerifReaderState returns the bookkeeping fields of h.
+func (h *ValueReader) VerifReaderState() VerifReaderState {
+	return VerifReaderState{
+		Depth: h.depth, NewMapSize: h.newMapSize, LastMapSize: h.lastMapSize, MaxMapSize: h.maxMapSize,
+		NewSliceSize: h.newSliceSize, LastSliceSize: h.lastSliceSize,
+		StackCap: cap(h.buf.stackBuf), FieldNameCap: cap(h.fieldNameBuf), StringCap: cap(h.stringBuf),
+	}
+}
+
+// fp re-exports (an external module cannot import internal/fp).
+
+func VerifFpReadFloat(data []byte) (uint64, int, bool, bool, int, bool) {
+	return fp.VerifReadFloat(data)
+}
+func VerifFpAtof64exact(m uint64, e int, neg bool) (float64, bool) {
+	return fp.VerifAtof64exact(m, e, neg)
+}
+func VerifFpEiselLemire64(m uint64, e int, neg bool) (float64, bool) {
+	return fp.VerifEiselLemire64(m, e, neg)
+}
+func VerifFpDecimal(data []byte) (uint64, bool, bool) { return fp.VerifDecimal(data) }
+func VerifFpParse(data []byte) (float64, int, error)  { return fp.ParseJSONFloatPrefix(data) }
